@@ -162,7 +162,7 @@ def native_replay(entry, args, cases, timeout=900):
 
 
 def _short_model(events):
-    return {e["name"]: e["value"] for e in events}
+    return {e["name"]: e["value"] for e in (events or [])}
 
 
 def gosym_part(prop, tier, seed, name, entry, args_quick=(), args_thorough=None, extra_quick=(), extra_thorough=None,
@@ -204,7 +204,7 @@ def gosym_part(prop, tier, seed, name, entry, args_quick=(), args_thorough=None,
         for a in pr["asserts"]:
             if a["status"] == "violated" and a.get("events") is not None:
                 cid += 1
-                cases.append({"id": cid, "events": a["events"]})
+                cases.append({"id": cid, "events": a["events"] or []})
                 meta[cid] = ("violation", pr, a)
     for pr in rr["replay_paths"] or []:
         if any(a["status"] == "violated" for a in pr.get("asserts") or []):
@@ -212,7 +212,7 @@ def gosym_part(prop, tier, seed, name, entry, args_quick=(), args_thorough=None,
         if pr.get("notes"):
             continue
         cid += 1
-        cases.append({"id": cid, "events": pr["events"]})
+        cases.append({"id": cid, "events": pr["events"] or []})
         meta[cid] = ("path", pr, None)
     try:
         native = native_replay(entry, args, cases)
